@@ -6,11 +6,14 @@
    exactly one invocation per non-discarded registered tagged element (the log is their post-order list), an
    unregistered tag yields the generic tagged value or, under UNWRAP, the inner value; without a registry every tag is
    generic and the log is empty; nothing inside a discarded form reaches a handler.
-   PARTIAL: handler failure and the ERROR default (excluded by the side condition [hok]), namespaced tag names, and the
-   other element kinds are decided by the correspondence run + the dispatch oracle. *)
+   A top-level tagged element whose handler refuses its value fails the whole read with the class "invalid syntax" and
+   the HANDLER'S message; an unregistered tag under the ERROR default fails it with the class "unknown tag"
+   (C14_failing_tag_partial).
+   PARTIAL: failures of NESTED tagged elements, namespaced tag names, and the other element kinds are decided by the
+   correspondence run + the dispatch oracle. *)
 From Coq Require Import ZArith NArith List Bool.
 From Coq.Strings Require Import Byte.
-From Verif Require Import Lanes Common Values Scan Reader Api RegistryProofs DiscardInv Configs FlagProofs RoundTripTag.
+From Verif Require Import Lanes Common Values Scan Reader Api RegistryProofs DiscardInv Configs FlagProofs TriviaProofs RoundTripTag.
 From Coq Require Import String.
 Import ListNotations.
 
@@ -75,6 +78,18 @@ Example C14_tag_example :
   end.
 Proof. exact tag_example_ok. Qed.
 
+Theorem C14_failing_tag_partial : forall c o m tag ws x, In c all_cfgs -> tagok tag -> trivia ws -> ws <> [] -> hwf x -> hok o builtin_handler x ->
+  has_registry o = true -> tag_fails o builtin_handler tag ->
+  let txt := "#"%byte :: tag ++ ws ++ hpr x in
+  slice m 0 (List.length txt) = txt ->
+  exists r s, run_doc c o m (N.of_nat (List.length txt)) = Ret r s /\ r_value r = None /\ r_eof r = false /\
+    match lookup_tag o tag with
+    | Some h => r_err r = ESyntax /\ exists ms, r_msg r = MHandler ms /\ forall v, builtin_handler h v = (None, ms)
+    | None => r_err r = EUnknownTag
+    end.
+Proof. exact tag_failure_document. Qed.
+
+Print Assumptions C14_failing_tag_partial.
 Print Assumptions C14_tagged_documents_partial.
 Print Assumptions C14_registry_refines_map.
 Print Assumptions C14_ext_table.
